@@ -94,6 +94,30 @@ def _struct_call(node: ast.AST, structs: dict[str, str]) -> tuple[str, str, list
     return None
 
 
+def _module_structs(tree: ast.Module) -> dict[str, str]:
+    """NAME = Struct('<fmt>') / struct.Struct('<fmt>') at module level (also annotated) -> {NAME: fmt}."""
+    out: dict[str, str] = {}
+    for n in tree.body:
+        tgt = n.targets[0] if isinstance(n, ast.Assign) and len(n.targets) == 1 else n.target if isinstance(n, ast.AnnAssign) else None
+        v = getattr(n, 'value', None)
+        if isinstance(tgt, ast.Name) and isinstance(v, ast.Call) and ast.unparse(v.func) in ('Struct', 'struct.Struct') and len(v.args) == 1 \
+                and not v.keywords and isinstance(v.args[0], ast.Constant) and isinstance(v.args[0].value, str):
+            out[tgt.id] = v.args[0].value
+    return out
+
+
+def _fmt_arg(node: ast.AST, structs: dict[str, str]) -> str | None:
+    """A struct format given as a string literal, a module-level Struct constant, or an inline Struct('<fmt>')."""
+    if isinstance(node, ast.Constant) and isinstance(node.value, str):
+        return node.value
+    if isinstance(node, ast.Name) and node.id in structs:
+        return structs[node.id]
+    if isinstance(node, ast.Call) and ast.unparse(node.func) in ('Struct', 'struct.Struct') and len(node.args) == 1 and not node.keywords \
+            and isinstance(node.args[0], ast.Constant) and isinstance(node.args[0].value, str):
+        return node.args[0].value
+    return None
+
+
 def _pad_call(node: ast.AST) -> tuple[str, int] | None:
     """pad_string(expr, N) -> (source of expr, N)"""
     if isinstance(node, ast.Call) and isinstance(node.func, ast.Name) and node.func.id == 'pad_string' and len(node.args) == 2 \
@@ -348,7 +372,12 @@ def _printf_pieces(tpl: bytes, where: str) -> list[tuple]:
     return out
 
 
-def _write_pieces(arg: ast.AST, where: str) -> list[tuple]:
+def _write_pieces(arg: ast.AST, where: str, consts: dict[str, bytes] | None = None) -> list[tuple]:
+    consts = consts or {}
+    if isinstance(arg, ast.Name) and arg.id in consts:
+        arg = ast.copy_location(ast.Constant(value=consts[arg.id]), arg)
+    if isinstance(arg, ast.BinOp) and isinstance(arg.left, ast.Name) and arg.left.id in consts:
+        arg = ast.copy_location(ast.BinOp(left=ast.Constant(value=consts[arg.left.id]), op=arg.op, right=arg.right), arg)
     if isinstance(arg, ast.Constant) and isinstance(arg.value, bytes):
         return [('Lit', arg.value)] if arg.value else []
     if isinstance(arg, ast.BinOp) and isinstance(arg.op, ast.Mod) and isinstance(arg.left, ast.Constant) and isinstance(arg.left.value, bytes):
@@ -361,7 +390,7 @@ def _write_pieces(arg: ast.AST, where: str) -> list[tuple]:
     if isinstance(arg, ast.BinOp) and isinstance(arg.op, ast.Add):
         left, right = arg.left, arg.right
         if isinstance(left, ast.Call) and isinstance(left.func, ast.Attribute) and left.func.attr == 'encode':
-            return [('ConvStr',)] + _write_pieces(right, where)
+            return [('ConvStr',)] + _write_pieces(right, where, consts)
     raise TranslateError(f'smd.py: {where}: unrecognised write argument `{ast.unparse(arg)}`')
 
 
@@ -372,9 +401,11 @@ def _mentions_file(node: ast.AST) -> bool:
 class _Lines:
     """Enumerate the lines a statement list can write: state = set of partial lines (tuples of pieces)."""
 
-    def __init__(self) -> None:
+    def __init__(self, consts: dict[str, bytes] | None = None) -> None:
         self.done: set[tuple] = set()
         self.census: list[dict] = []
+        self.consts: dict[str, bytes] = dict(consts or {})      # names bound to one bytes literal (module level or local)
+        self.dead: set[str] = set()
 
     def emit(self, partials: set[tuple], pieces: list[tuple]) -> set[tuple]:
         out = set()
@@ -404,7 +435,7 @@ class _Lines:
     def stmt(self, st: ast.stmt, partials: set[tuple]) -> set[tuple]:
         arg = _is_file_write(st)
         if arg is not None:
-            pcs = _write_pieces(arg, f'line {st.lineno}')
+            pcs = _write_pieces(arg, f'line {st.lineno}', {k: v for k, v in self.consts.items() if k not in self.dead})
             self.census.append({'line': st.lineno, 'pieces': [[p[0]] + [x.decode('latin1') if isinstance(x, bytes) else x for x in p[1:]] for p in pcs]})
             return self.emit(partials, pcs)
         if isinstance(st, ast.If):
@@ -425,6 +456,16 @@ class _Lines:
         if isinstance(st, (ast.Assign, ast.AnnAssign, ast.AugAssign, ast.Assert, ast.Pass, ast.Expr, ast.Delete)):
             if _mentions_file(st):
                 raise TranslateError(f'smd.py: line {st.lineno}: `file` used outside a plain file.write(...) statement')
+            tgts = st.targets if isinstance(st, ast.Assign) else [st.target] if isinstance(st, (ast.AnnAssign, ast.AugAssign)) else []
+            for t in tgts:
+                for x in ast.walk(t):
+                    if isinstance(x, ast.Name):
+                        v = getattr(st, 'value', None)
+                        if isinstance(st, ast.Assign) and len(tgts) == 1 and isinstance(t, ast.Name) and isinstance(v, ast.Constant) \
+                                and isinstance(v.value, bytes) and x.id not in self.consts and x.id not in self.dead:
+                            self.consts[x.id] = v.value
+                        elif not (x.id in self.consts and isinstance(v, ast.Constant) and v.value == self.consts[x.id]):
+                            self.dead.add(x.id)          # rebound to something else: no longer a known template
             return partials
         if isinstance(st, ast.Raise):
             return set()
@@ -468,7 +509,10 @@ def translate_smd() -> tuple[str, dict]:
                             regex = c.args[0].value
     if regex is None:
         raise TranslateError('smd.py: Mesh._parse_smd_bones: re.fullmatch(<bytes pattern>, line) not found')
-    L = _Lines()
+    mconsts = {n.targets[0].id: n.value.value for n in tree.body
+               if isinstance(n, ast.Assign) and len(n.targets) == 1 and isinstance(n.targets[0], ast.Name)
+               and isinstance(n.value, ast.Constant) and isinstance(n.value.value, bytes)}
+    L = _Lines(mconsts)
     rest = L.block(body, {()})
     dangling = [p for p in rest if p]
     lines = sorted(L.done, key=lambda t: repr(t))
@@ -632,10 +676,10 @@ def _attr_call(node: ast.AST, obj: str, meth: str) -> ast.Call | None:
     return None
 
 
-def _struct_pack(node: ast.AST) -> tuple[str, list[ast.AST]] | None:
-    if isinstance(node, ast.Call) and ast.unparse(node.func) in ('struct.pack', 'pack') and node.args and not node.keywords \
-            and isinstance(node.args[0], ast.Constant) and isinstance(node.args[0].value, str):
-        return node.args[0].value, list(node.args[1:])
+def _struct_pack(node: ast.AST, structs: dict[str, str] | None = None) -> tuple[str, list[ast.AST]] | None:
+    sc = _struct_call(node, structs or {})
+    if sc is not None and sc[0] == 'pack':
+        return sc[1], sc[2]
     return None
 
 
@@ -647,6 +691,7 @@ def _coq_pairs(flds: list[str], srcs: list[str], what: str) -> str:
 
 def translate_scenes_image() -> tuple[str, dict]:
     tree = ast.parse(src_text('choreo.py'))
+    mstructs = _module_structs(tree)
     funcs = {n.name: n for n in tree.body if isinstance(n, ast.FunctionDef)}
     classes = {n.name: n for n in tree.body if isinstance(n, ast.ClassDef)}
     for need in ('save_scenes_image_sync', 'parse_scenes_image'):
@@ -814,7 +859,7 @@ def translate_scenes_image() -> tuple[str, dict]:
                 wr = _attr_call(c, 'file', 'write')
                 if wr is not None:
                     a = wr.args[0]
-                    pk = _struct_pack(a)
+                    pk = _struct_pack(a, mstructs)
                     if pk is not None:
                         events.append({'k': 'pack', 'ctx': ctx, 'fmt': pk[0], 'src': [src_of(x, loopvar, inner) for x in pk[1]], 'line': st.lineno})
                     elif isinstance(a, ast.BinOp) and isinstance(a.op, ast.Add) and isinstance(a.right, ast.Constant) and a.right.value == b'\x00' \
@@ -1023,7 +1068,10 @@ def translate_scenes_image() -> tuple[str, dict]:
             c = struct_read_call(n.value)
             t = n.targets[0]
             if c is not None and isinstance(t, (ast.List, ast.Tuple)) and all(isinstance(x, ast.Name) for x in t.elts):
-                reads.append({'fmt': _const_str(c.args[0], 'struct_read format'), 'targets': [x.id for x in t.elts], 'line': n.lineno})
+                rf = _fmt_arg(c.args[0], mstructs)
+                if rf is None:
+                    raise TranslateError(f'choreo.py: parse_scenes_image line {n.lineno}: struct_read format `{ast.unparse(c.args[0])}` not recognised')
+                reads.append({'fmt': rf, 'targets': [x.id for x in t.elts], 'line': n.lineno})
             if isinstance(n.value, ast.Call) and ast.unparse(n.value.func) == 'binformat.read_offset_array':
                 a = n.value.args
                 pool_var = ast.unparse(t)
@@ -1418,6 +1466,9 @@ class _TextCensus:
                     cond[src] = 'needs_quotes'
                     tpl[nm] = [[('fld', False, self.type_of(cq, env, where), src)]]
                     continue
+                if isinstance(v, ast.Call) and ast.unparse(v.func) == 'escape_text' and len(v.args) == 1 and not v.keywords:
+                    tpl[nm] = [[('fld', True, self.type_of(v.args[0], env, where), ast.unparse(v.args[0]))]]
+                    continue
                 if isinstance(v, (ast.JoinedStr, ast.IfExp)) or (isinstance(v, ast.Constant) and isinstance(v.value, str)):
                     try:
                         alts = self.pieces(v, env, tpl, where)
@@ -1578,7 +1629,9 @@ def _snd_stack_census(fn: ast.FunctionDef, parse_one: ast.FunctionDef, init: ast
     def scan(stmts: list[ast.stmt], in_v2: bool) -> None:
         for st in stmts:
             if isinstance(st, ast.If):
-                direct_loops = [sub for sub in st.body if isinstance(sub, ast.For) and has_serialise(sub)]
+                direct_loops = [sub for sub in st.body if isinstance(sub, ast.For) and any(
+                    isinstance(x, ast.Expr) and isinstance(x.value, ast.Call) and isinstance(x.value.func, ast.Attribute)
+                    and x.value.func.attr == 'serialise' for x in sub.body)]
                 if direct_loops:
                     guard = self_attr(_strip_test(st.test))
                     names = [b for b in map(block_name, const_writes(st.body)) if b]
@@ -1590,6 +1643,12 @@ def _snd_stack_census(fn: ast.FunctionDef, parse_one: ast.FunctionDef, init: ast
                     continue
                 texts = const_writes(st.body)
                 is_v2 = any('operator_stacks' in t or 'soundentry_version' in t for t in texts)
+                if not is_v2 and any('operator_stacks' in t or 'soundentry_version' in t for t in const_writes(st.orelse)):
+                    if not (isinstance(st.test, ast.UnaryOp) and isinstance(st.test.op, ast.Not)):
+                        raise TranslateError(f'sndscript.py: Sound.export line {st.lineno}: version-2 keys written when a test is false')
+                    st = ast.copy_location(ast.If(test=st.test.operand, body=st.orelse, orelse=st.body), st)
+                    texts = const_writes(st.body)
+                    is_v2 = True
                 if is_v2:
                     v2_ifs.append(st)
                     v2_text.extend(texts)
@@ -1911,6 +1970,7 @@ class _BinPaths:
     emit or consume (both arms of every `if`, `return` ends a path; a loop is one token holding the paths of its body)."""
 
     def __init__(self, tree: ast.Module) -> None:
+        self.mstructs = _module_structs(tree)
         self.classes = {n.name: n for n in tree.body if isinstance(n, ast.ClassDef)}
         self.ann: dict[tuple[str, str], str] = {}
         self.classvars: dict[str, dict[str, str]] = {}
@@ -1975,8 +2035,8 @@ class _BinPaths:
                 a = n.args[0]
                 for sub in ast.walk(a):
                     skip.add(id(sub))
-                if isinstance(a, ast.Call) and ast.unparse(a.func) == 'struct.pack' and isinstance(a.args[0], ast.Constant):
-                    toks = _fmt_widths(a.args[0].value, where)
+                if _struct_pack(a, self.mstructs) is not None:
+                    toks = _fmt_widths(_struct_pack(a, self.mstructs)[0], where)
                 elif isinstance(a, ast.Call) and isinstance(a.func, ast.Attribute) and a.func.attr == 'pack' \
                         and isinstance(a.func.value, ast.Attribute) and a.func.value.attr in self.classvars:
                     toks = [('var', a.func.value.attr)]
@@ -1989,8 +2049,8 @@ class _BinPaths:
                     raise TranslateError(f'choreo.py: {where}: file.write(`{ast.unparse(a)[:60]}`) not recognised')
             elif side == 'r' and f == 'binformat.struct_read' and len(n.args) == 2:
                 a = n.args[0]
-                if isinstance(a, ast.Constant) and isinstance(a.value, str):
-                    toks = _fmt_widths(a.value, where)
+                if _fmt_arg(a, self.mstructs) is not None:
+                    toks = _fmt_widths(_fmt_arg(a, self.mstructs), where)
                 elif isinstance(a, ast.Attribute) and a.attr in self.classvars:
                     toks = [('var', a.attr)]
                 else:
